@@ -6,8 +6,24 @@ CHECKS = {
          "bounded exhaustive exploration of the ledger graph on the real code vs exact-rational reference model"),
  "C02": ("same ledger graphs (+ ratios 3 and 2.5, two securities); three conservation laws evaluated from the input lines and the report in exact rationals on every accepted ledger",
          "bounded exhaustive exploration of the ledger graph on the real code; conservation invariants on every state"),
+ "C03": ("`events` ledger graphs (fees, splits, CAPRETURN/ACCUMULATION/DIVIDEND, USD/EUR variant, two securities): cost conservation identity per security in exact rationals on every accepted ledger",
+         "bounded exhaustive exploration of the ledger graph on the real code; cost-conservation invariant on every state"),
+ "C04": ("`years` ledger graph (two fills per day, FX, zero results, dividends, three 5/6 April boundaries) x distinct per-year exemptions x removal of each year's exemption; all report identities recomputed from the input lines; configuration-file menu through the real CLI",
+         "bounded exhaustive exploration of the ledger graph x configuration menu on the real code; arithmetic identities recomputed from input lines"),
  "C05": ("ledger graphs match1 and oversell (duplicate rows, forward-matched companions, oversell after split/unsplit); acceptance compared with the exact coverage predicate on every ledger; refusals must name ticker and date",
          "bounded exhaustive exploration of the ledger graph on the real code vs exact coverage predicate"),
+ "C06": ("all n! line permutations of every base ledger of four graphs, two-fill splitting in all permutations, and all 2^(n-1) file compositions x final-newline through the real CLI; reports compared with the canonical order at three levels",
+         "exhaustive enumeration of all line orders / file compositions / fill splittings of bounded ledgers on the real code; equality with the canonical order"),
+ "C07": ("every calendar date 1899-12-31..2101-04-07 against an independent 6-April rule; `years` graph x every year filter (slice equality, holdings); cgt-tool report --year and MCP explain_matching for every 5/6 April 1900..2101",
+         "exhaustive date sweep + bounded exhaustive exploration of ledger x year-filter pairs on the real code"),
+ "C09": ("two-security ledger graph: combined run vs each security alone (disposals, leg lists, holdings, acceptance, totals adding up), reversed interleaving; all case spellings of a ticker in DSL and JSON input",
+         "bounded exhaustive exploration of the two-security ledger graph on the real code; projection equality"),
+ "C10": ("every ledger with SPLIT/UNSPLIT vs its exactly-representable rescaled twin; SPLIT r;UNSPLIT r inserted on every adjacent free date pair of every ledger",
+         "bounded exhaustive exploration of the ledger graph on the real code; differential twin equality"),
+ "C11": ("every ledger vs the ledger minus each CAPRETURN/ACCUMULATION/DIVIDEND event: exact expenditure shift, later acquisitions untouched, cancelling pairs, no negative cost, refusal brackets",
+         "bounded exhaustive exploration of the ledger graph on the real code; with/without-event differential"),
+ "C12": ("edges prefix -> prefix+suffix: every accepted prefix x every continuation of <= k events dated T+31/T+32/T+45; earlier disposals and year totals unchanged, refusals caused by appended dates only",
+         "exhaustive enumeration of prefix/continuation edges of the bounded ledger graph on the real code"),
 }
 ALL = ["C%02d" % i for i in range(1, 21)]
 m = {
